@@ -8,7 +8,11 @@ RULE = ("every acyclic ADMG(n) n<=3 quick / n<=4 thorough under the label famili
         "ADMGs n<=8 under six label families with 30 queries; a quarter of the random and every small graph again as REPEAT case "
         "(object built and used for a neighbour graph, then edited in place or its layer objects replaced via remove_edge_type/"
         "add_edge_type, returned DiGraph edited and the conversion repeated, also on G.copy()) and with CUSTOM edge-type names "
-        "(beyond the property's quantifier); distinct by (canonical graph, label family, repeat, names); non-trivial = "
+        "(beyond the property's quantifier); the empty graph; every small graph also as pywhy_graphs.ADMG instance / three-layer "
+        "MixedEdgeGraph with an edge-less third layer, and with user node attributes that look like the generated ones "
+        "(label='Unobserved Confounders', observed='no'/'yes', on all or on seeded nodes incl. common parents of bidirected pairs); "
+        "query sets checked for mutation; distinct by (canonical graph, label family, repeat, names, object kind, look-alike "
+        "attributes); non-trivial = "
         "the graph has a bidirected edge and the queries contain a separated and a connected one")
 EXHAUSTIVE = {"quick": "all ADMG(n) n<=3 x {int,'U<i>'} labels, all disjoint X,Y,Z",
               "thorough": "all ADMG(n) n<=4 x {int,'U<i>'} labels, all disjoint X,Y,Z"}
@@ -61,6 +65,22 @@ def gen_cases(tier, rng):
             fams = [None, "U"] + (["Urev", "Ushift"] if g["B"] and n <= 3 else [])
             for fam in fams:
                 yield {"kind": "admg%d" % n, "g": g, "fam": fam, "qs": qs, "oracle": True, "aseed": rng.randrange(64)}
+    # BOUNDARY: the empty graph
+    yield {"kind": "admg0", "g": gr.G([]), "fam": None, "qs": [], "oracle": True, "aseed": 0}
+    yield {"kind": "admg0", "g": gr.G([]), "fam": None, "qs": [], "oracle": True, "aseed": 0, "okind": "admg"}
+    # OBJECT KINDS (ADMG instance / three-layer MixedEdgeGraph with an edge-less third layer) and USER ATTRIBUTES THAT LOOK
+    # LIKE GENERATED ONES (label / observed="no" on caller nodes, incl. common parents of bidirected pairs)
+    for n in range(1, 4 if tier == "quick" else 5):
+        for j, g in enumerate(gr.enum_admg(n)):
+            if n == 4 and j % 6:
+                continue
+            qs = queries(g["V"])
+            yield {"kind": "kinds%d" % n, "g": g, "fam": "U" if j % 3 == 0 else None, "qs": qs, "oracle": True,
+                   "aseed": rng.randrange(64), "okind": ("admg", "mixed3")[j % 2],
+                   **({"rep": rng.randrange(1 << 30)} if j % 4 == 0 else {})}
+            if g["B"] and g["D"]:
+                yield {"kind": "ulike%d" % n, "g": g, "fam": None, "qs": qs, "oracle": True, "aseed": rng.randrange(64),
+                       "ulike": 2 * rng.randrange(1 << 24) + (j % 2), "okind": ("mixed2", "admg", "mixed3")[j % 3]}
     nr = 240 if tier == "quick" else 2400
     fams = [None, "U", "Urev", "Ushift", "tuple", "str"]
     for i in range(nr):
@@ -81,6 +101,10 @@ def gen_cases(tier, rng):
             qs = rng.sample(allq, min(30, len(allq)))
         c = {"kind": "rand", "g": g, "fam": fams[i % len(fams)], "qs": qs, "oracle": n + len(g["B"]) <= 9,
              "aseed": rng.randrange(64)}
+        if i % 3 == 0:
+            c.update(ulike=2 * rng.randrange(1 << 24) + (i // 3) % 2)
+        if i % 4 != 3:
+            c.update(okind=("mixed2", "admg", "mixed3")[i % 3])
         if i % 4 == 1:
             c.update(kind="rand-rep", rep=rng.randrange(1 << 30))
         elif i % 4 == 3:
@@ -142,18 +166,41 @@ def labels(case):
     return lab, (lambda x: table[x])
 
 
+def node_attrs(case, v, mode):
+    """user attributes; with case["ulike"] some nodes also carry the keys/values the function writes on the latents it creates"""
+    d = {"w": [v, {"k": v}], "tag": "n%d" % v, "m": mode}
+    ul = case.get("ulike")
+    if ul is not None:
+        r = (ul >> (2 * (v % 12))) & 3 if ul % 2 else 0     # even seed: every node looks like a latent
+        if r == 0:
+            d.update(label="Unobserved Confounders", observed="no")
+        elif r == 1:
+            d.update(observed="no")
+        elif r == 2:
+            d.update(label="Unobserved Confounders", observed="yes")
+    return d
+
+
 def build(case):
     import networkx as nx
     import pywhy_graphs.networkx as pywhy_nx
     g = case["g"]
     lab, inv = labels(case)
     dn, bn = case.get("names") or ["directed", "bidirected"]
-    M = pywhy_nx.MixedEdgeGraph(graphs=[nx.DiGraph(), nx.Graph()], edge_types=[dn, bn])
+    okind = case.get("okind", "mixed2")
+    if okind == "admg":                                         # an ADMG instance: has a third, empty undirected layer
+        from pywhy_graphs import ADMG
+        M = ADMG()
+    elif okind == "mixed3":                                     # three-layer MixedEdgeGraph, third layer edge-less
+        M = pywhy_nx.MixedEdgeGraph(graphs=[nx.DiGraph(), nx.Graph(), nx.Graph()],
+                                    edge_types=[dn, bn, "undir" if case.get("names") else "undirected"])
+    else:
+        M = pywhy_nx.MixedEdgeGraph(graphs=[nx.DiGraph(), nx.Graph()], edge_types=[dn, bn])
     # node attributes are attached in four different ways (mixed per case by case["aseed"]): only mode 0 is mirrored
     # into the per-layer graphs, so an implementation that reads attributes from a layer instead of G.nodes loses the rest
     aseed = case.get("aseed", 0)
     mode = {v: (aseed + 3 * v + (aseed >> 2) * (v + 1)) % 4 for v in g["V"]}
-    attrs = {v: {"w": [v, {"k": v}], "tag": "n%d" % v, "m": mode[v]} for v in g["V"]}
+    attrs = {v: node_attrs(case, v, mode[v]) for v in g["V"]}
     for v in gr.ordered(case, g["V"], "V"):
         if mode[v] == 0:
             M.add_node(lab(v), **attrs[v])                      # keyword attributes of add_node
@@ -194,8 +241,10 @@ def observe(M, R, case, lab, inv):
     out = {"type": type(R).__name__}
     orig = {lab(v) for v in case["g"]["V"]}
     out["kept"] = all(x in R for x in orig)
-    out["attrs"] = all(dict(R.nodes[x]) == dict(M.nodes[x]) and len(R.nodes[x]) == 3 for x in orig if x in R)
-    out["gattrs"] = dict(R.graph) == dict(M.graph) and len(R.graph) == 2
+    out["attrs"] = all(dict(R.nodes[x]) == dict(M.nodes[x]) and
+                       {k: v for k, v in R.nodes[x].items() if k != "m"} ==
+                       {k: v for k, v in node_attrs(case, inv(x), 0).items() if k != "m"} for x in orig if x in R)
+    out["gattrs"] = dict(R.graph) == dict(M.graph) and R.graph.get("note") == "graph-level" and "name" in R.graph
     lat = [x for x in R.nodes if x not in orig]
     out["D"] = sorted([inv(a), inv(b)] for a, b in R.edges if a in orig and b in orig)
     bad = []
@@ -230,14 +279,17 @@ def run_impl(case):
         ds, ms = [], []
         for X, Y, Z in case["qs"]:
             X, Y, Z = ({lab(v) for v in S} for S in (X, Y, Z))
+            keep = (set(X), set(Y), set(Z))
             try:
                 ds.append(int(bool(nx.is_d_separator(Rx, X, Y, Z))))
             except Exception as e:  # noqa
                 ds.append("exc:" + type(e).__name__)
             try:
-                ms.append(int(bool(pywhy_nx.m_separated(Mx, X, Y, Z, **kw))))
+                ms.append(int(bool(pywhy_nx.m_separated(Mx, X, Y, Z, **kw))))       # the same set objects again
             except Exception as e:  # noqa
                 ms.append("exc:" + type(e).__name__)
+            if (X, Y, Z) != keep:
+                ms[-1] = "query-sets-mutated"
         return ds, ms
 
     rep = case.get("rep")
@@ -328,7 +380,8 @@ def nontrivial(case, model):
 
 
 def key(case):
-    return (gr.canon(case["g"]), case.get("fam"), case.get("rep") is not None, tuple(case.get("names") or ()))
+    return (gr.canon(case["g"]), case.get("fam"), case.get("rep") is not None, tuple(case.get("names") or ()),
+            case.get("okind", "mixed2"), case.get("ulike") is not None)
 
 
 def shrink(case):
